@@ -246,6 +246,11 @@ Definition property_holds (c : c19case) : bool :=
       let all := concat pages in
       (* QIDs of whatever was listed agree with Walk and GetAttr, always *)
       qids_agree all names wq gq &&
+      (* every reply holds whole entries within the budget: through client and server at most min(count, msize - 11) bytes,
+         directly at most count entries *)
+      forallb (fun pg => if remote
+                         then fold_left (fun a d => a + entry_size d) pg 0 <=? N.min count (max_reply_payload msize)
+                         else lenN pg <=? count) pages &&
       (* no entry twice, always *)
       forallb (fun d => Nat.eqb (count_name (d_name d) all) 1) (if Nat.leb (List.length all) 400 then all else []) &&
       (* complete, when one entry fits *)
